@@ -213,34 +213,27 @@ def rule_column(ck):
     if len(ps) != 1 or got != want:
         ck.violation(where, f"position text is {got!r}; expected file:line:column with line = newlines before pos + 1 and column = characters since the line start + 3 per tab + 1 (a tab counts as four columns): {want!r}",
                      construct="Context.__repr__ formula", expected=repr(want), found=repr(got))
-    # sibling: GraphicalHandler computes the same column (0-based)
-    gh = repo.func("reports::GraphicalHandler.__call__")
-    mod = repo.module("reports")
-    env = Env()
-    cs = Rec(I.explore(lambda: I.module_get("context", "Context"))[0].value)
-    cs.fields.update(code=CODE, pos=POS, filename=FN)
-    env.vars["ctx_start"] = cs
-    vals = {}
-    for n in walk_local(gh):
-        if isinstance(n, ast.Assign) and isinstance(n.targets[0], ast.Name) and n.targets[0].id in ("idx_line_start", "line_no", "start_col_no"):
-            try:
-                v = I.explore(lambda: I.ev(n.value, env, mod))[0].value
-            except Exception as ex:
-                raise Unknown(f"GraphicalHandler: {n.targets[0].id}: {ex}") from None
-            env.vars[n.targets[0].id] = v
-            vals[n.targets[0].id] = v
-    ck.instance("graphical-column", {"start_col_no": repr(vals.get("start_col_no"))[:200], "line_no": repr(vals.get("line_no"))[:120]}, fn="reports::GraphicalHandler.__call__")
-    if vals.get("start_col_no") != col:
-        ck.violation("reports::GraphicalHandler.__call__", f"the graphical renderer's column {vals.get('start_col_no')!r} differs from Context.__repr__'s column {col!r}", construct="GraphicalHandler column")
-    line0 = sym.op("count", CODE, "\n", 0, start)
-    if vals.get("line_no") not in (line, line0):
-        ck.violation("reports::GraphicalHandler.__call__", f"the graphical renderer's line {vals.get('line_no')!r} differs from Context.__repr__'s line", construct="GraphicalHandler line")
-    # BareHandler prints the start position
-    bh = repo.func("reports::BareHandler.__call__")
-    txt = norm_text(bh)
-    ck.instance("bare", None, fn="reports::BareHandler.__call__")
-    if "{ctx_start!r}" not in txt and "repr(ctx_start)" not in txt:
-        ck.violation("reports::BareHandler.__call__", "the bare report format does not print the start position of the span", construct="BareHandler position")
+    # siblings: the graphical renderer's column is decided by execution in C17.render; the bare format prints the start position -
+    # executed here on a concrete file (line 2, after one tab and two characters: column 7)
+    I2 = eager_interp(repo)
+    I2.summaries = {}
+
+    def thunk_b():
+        C = I2.module_get("context", "Context")
+
+        def at(pos):
+            c = I2.instantiate(C, ["dir/a.mac", "x\n\tab cd\n"], {})
+            c.fields["pos"] = pos
+            return c
+        h = I2.instantiate(I2.module_get("reports", "BareHandler"), [], {})
+        I2.call_method(h, "__call__", [I2.module_get("reports", "error"), "some-id", (at(5), at(7), "msg")])
+        return "".join("".join(str(x) for x in e[1]) + "\n" for e in I2.effects if e[0] == "print")
+    pb = I2.explore(thunk_b)
+    ck.instance("bare", {"BareHandler output for a span at offset 5 of 'x\\n\\tab cd\\n'": pb[0].value if pb and pb[0].kind == "return" else repr(pb)}, fn="reports::BareHandler.__call__")
+    if len(pb) != 1 or pb[0].kind != "return":
+        ck.incomplete("reports::BareHandler.__call__", "BareHandler on one span", pb)
+    elif "dir/a.mac:2:7" not in pb[0].value:
+        ck.violation("reports::BareHandler.__call__", f"the bare report format prints {pb[0].value!r} for a span that starts at dir/a.mac:2:7: the start position (file:line:column) is not in it", construct="BareHandler position")
 
 
 def rule_hoist_spans(ck):
@@ -485,4 +478,4 @@ def run(ck):
     ck.run_rule("R.deliver", "the handler receives a report's spans as given: the first span is the culprit", 6, deliver.rule_deliver)
     ck.run_rule("G9", "report spans: one token, or ordered and equally fresh snapshots", 120, rule_G9)
     ck.run_rule("C17.tok", "tokens store snapshots; contexts are per file", 3, rule_token)
-    ck.run_rule("C17.col", "line:column formula and its sibling in the graphical renderer", 3, rule_column)
+    ck.run_rule("C17.col", "line:column formula; the bare format prints it (executed)", 2, rule_column)
